@@ -15,7 +15,7 @@ checks = {
 
  "C01": dict(engine=EA, design="§3 E-A, §4 C01",
    text="Explicit-state BFS over every sequence of writes (15 shapes: aligned 1-3 blocks, sub-block at start/middle/end, spans with unaligned head/tail), reads, user/automatic snapshots, system-performed removals, reverts, close/reopen with and without preload and reload, with hole punching off and on, on 1-3 block volumes; after every path the live volume is read back (every 512-multiple (offset,length) pair on the last level) and compared with the reference model.",
-   note="Trusted: reference model, ext4 FIEMAP. Bounds: <=3 blocks, depth as reported in evidence (budgeted), <=4 snapshots. The controller's out-of-range clause is decided by engine E-B once built.",
+   note="Trusted: reference model, ext4 FIEMAP. Bounds: <=3 blocks, depth as reported in evidence (budgeted), <=4 snapshots. Part 2 (engine E-B, C01range): for EVERY (offset, length) pair with offset in [-2,N+2] and length in [0,N+2] sectors Controller.WriteAt/ReadAt is rejected exactly when the range leaves [0,size), without reaching a replica or changing its data.",
    technique="explicit-state BFS with replay on the real replica.Server vs reference model"),
  "C10": dict(engine=EA, design="§3 E-A, §4 C10",
    text="Explicit-state BFS over sequences of writes, mode flips RW/WO, SetRevisionCounter, close/open, reload, snapshot and reopen on a real replica; after every path the persisted revision counter equals the model's (+1 per write applied while RW, unchanged in WO, SetRevisionCounter only in RW) and is the same after close/reopen. Part 2 (engine E-D): all interleavings up to preemption bound 3 of 2-3 concurrent writers (+ a counter reader, + a mode flip) on one real replica: final counter = initial + number of writes applied while RW, persisted value equal. Part 3 (engine E-C): at every file-system-call boundary of a write (RW and WO) and of SetRevisionCounter the reopened counter is old or new and never lower.",
